@@ -26,6 +26,7 @@ func (s *Server) laURLHandlerFunc(w http.ResponseWriter, r *http.Request) {
 		msg := fmt.Sprintf("URL does not end with %s", laURLSuffix)
 		log.Error(msg)
 		http.Error(w, msg, http.StatusBadRequest)
+		return
 	}
 	// Parse JSON request body which looks like {"kids":["nrQFDeRLSAKTLifXUIPiZg"],"type":"temporary"}
 	// We only care about the kids array.
@@ -42,7 +43,7 @@ func (s *Server) laURLHandlerFunc(w http.ResponseWriter, r *http.Request) {
 	if err != nil {
 		msg := "Unmarshal error"
 		log.Error(msg, "err", err)
-		http.Error(w, msg, http.StatusInternalServerError)
+		http.Error(w, msg, http.StatusBadRequest)
 		return
 	}
 	log.Debug("laURL request", "data", reqData)
@@ -54,7 +55,7 @@ func (s *Server) laURLHandlerFunc(w http.ResponseWriter, r *http.Request) {
 		if err != nil {
 			msg := "id16FromBase64 error"
 			log.Error(msg, "err", err)
-			http.Error(w, msg, http.StatusInternalServerError)
+			http.Error(w, msg, http.StatusBadRequest)
 			return
 		}
 		if !bytes.HasPrefix(kid16[:], kidStart) {
